@@ -1,6 +1,8 @@
 import OutrankModel.Gen.Src.C13
 import OutrankModel.Model.C13
+import OutrankModel.Model.C16
 import OutrankModel.Lemmas.Bridge
+import OutrankModel.Lemmas.PyStr
 /-! Source tie of C13: the retirement test of `compute_value_counts` as the source states it now vs `C13.Rare.retire`. -/
 namespace Src.C13
 open Gen.Src.C13
@@ -12,5 +14,14 @@ theorem retire_model (v : Nat) (thr : Int) : retire (v : Int) thr = decide (thr 
 /-- `if unique_value:` – only non-empty values are fed to the cardinality sketch (the `truthy` parameter of `C13.batchFeed`) -/
 theorem counted_in_sketch_model (v : String) : countedInSketch v = decide (v ≠ "") := by unfold countedInSketch; rfl
 
+/-- `parse_csv_raw`: the column names of the data set are `header.strip().split(col_delimiter)`; for a one-character delimiter
+(the source's `','`) that is the line parsers' `splitOn` of the stripped header – empty names kept, `none` = ValueError for `''` -/
+theorem header_fields_model (header sep : String) (d : Char) (hd : sep.toList = [d]) :
+    headerFields header sep = some ((C16.splitOn d (C16.pyStrip header.toList)).map String.ofList) := by
+  unfold headerFields
+  simp [PyStr.split?_of_single _ sep d hd, PyStr.strip_model]
+
+example : ",".toList = [','] := by decide
+example : headerFields " a,b c,,d\n" "," = some ["a", "b c", "", "d"] := by decide
 example : retire 3 2 = true ∧ retire 2 2 = false := by decide
 end Src.C13
